@@ -21,6 +21,8 @@ for i, spec in enumerate(sys.argv[3:]):
         j['opt']['max_alloc'] = int(os.environ['VERIF_MAXALLOC'])
     if len(parts) > 3 and parts[3] == 'nostats':
         j['opt']['stub'] = ['(*scratch/%s.stringStats).add' % prog, '(*scratch/%s.stringOptionalStats).add' % prog]
+    if os.environ.get('VERIF_STUBS'):
+        j['opt']['stub'] = j['opt'].get('stub', []) + [x.replace('PKG', 'scratch/' + prog) for x in os.environ['VERIF_STUBS'].split(',')]
     if len(parts) > 3 and parts[3] == 'modeb':
         j['opt']['mode_b'] = True
     jobs.append(j)
